@@ -68,3 +68,47 @@ def x25519_roundtrip(key):
 def x448_roundtrip(key):
     enc = key._export_montgomery_public()
     return construct(curve='Curve448', point_x=_import_curve448_public_key(enc))
+
+
+# ---------------------------------------------------------------------------------------------------- PKCS#8 clear round trip (C08 / C13)
+from Crypto.IO import PKCS8
+from Crypto.Util.asn1 import DerNull, DerObjectId
+
+
+def pkcs8_clear_roundtrip(private_key, key_oid, kind):
+    """wrap without a passphrase, then unwrap: AlgorithmIdentifier parameters NULL (RSA), absent (EdDSA / XDH) or a named curve (ECC)"""
+    if kind == 'null':
+        key_params = DerNull()
+    elif kind == 'oid':
+        key_params = DerObjectId('1.2.840.10045.3.1.7')
+    else:
+        key_params = None
+    blob = PKCS8.wrap(private_key, key_oid, None, None, None, key_params)
+    return PKCS8.unwrap(blob)
+
+
+# ---------------------------------------------------------------------------------------------------- RSA PKCS#1 DER round trip (C08)
+from Crypto.PublicKey.RSA import _import_pkcs1_private
+
+
+def rsa_pkcs1_roundtrip(key):
+    """RSAPrivateKey (RFC 8017 A.1.2) written by export_key(format='DER', pkcs=1) and read back: nine integers out, (n, e, d, p, q) in,
+    the CRT coefficient of the file (q^-1 mod p) is dropped and u = p^-1 mod q recomputed"""
+    der = key.export_key(format='DER')
+    return _import_pkcs1_private(der)
+
+
+# ---------------------------------------------------------------------------------------------------- DSA DER round trips (C08)
+from Crypto.PublicKey.DSA import _import_openssl_private as _dsa_import_openssl_private, _import_pkcs8 as _dsa_import_pkcs8
+
+
+def dsa_openssl_roundtrip(key):
+    """the OpenSSL/OpenSSH DER structure SEQUENCE {0, p, q, g, y, x} written by export_key(format='DER', pkcs8=False) and read back"""
+    der = key.export_key(format='DER', pkcs8=False)
+    return _dsa_import_openssl_private(der, None, None)
+
+
+def dsa_pkcs8_roundtrip(key):
+    """clear PKCS#8: PrivateKeyInfo {0, {id-dsa, Dss-Parms {p, q, g}}, OCTET STRING {INTEGER x}}; y is recomputed as g^x mod p on import"""
+    der = key.export_key(format='DER')
+    return _dsa_import_pkcs8(der, None, None)
